@@ -25,7 +25,7 @@ for pid in props:
             'replay_cmd_template': './check %s --replay {path}' % pid,
             'engine': 'runtime-monitor',
             'level_claimed': {'category': c['category'], 'text': c['text'], 'design_ref': c['ref']},
-            'level_note': c['note'],
+            'level_note': c['note'] + ' Input classes, entry points and oracles were extended by the audit recorded in DESIGN.md section 6.1; coverage.rule in the evidence file is the current description of what a run generates.',
             'technique': c['technique'],
         })
     else:
